@@ -883,6 +883,13 @@ def arbitrary_int_decls(tier='quick'):
         out.append(mk('arb_%s_expr_shift_less' % t, 'int', t, validators=[Validator('less', Bound('%s << 3' % one, '', '(%s << 3)' % one))], aux=[one], derives=der))
         out.append(mk('arb_%s_expr_shift_greater' % t, 'int', t, validators=[Validator('greater', Bound('%s << 3' % one, '', '(%s << 3)' % one)), Validator('less', Bound('%s << 5' % one, '', '(%s << 5)' % one))], aux=[one], derives=der))
         out.append(mk('arb_%s_expr_arith' % t, 'int', t, validators=[Validator('greater', Bound('%s * 4 - 2' % one, '', '(%s * 4 - 2)' % one)), Validator('less', Bound('%s + 8' % one, '', '(%s + 8)' % one))], aux=[one], derives=der))
+        K = 'K_%s' % T
+        out.append(mk('arb_%s_expr_bitand_greater' % t, 'int', t, validators=[Validator('greater', Bound('%s & 0x0E' % K, '', '(%s & 0x0E)' % K)), Validator('less', Bound('%s | 0x40' % K, '', '(%s | 0x40)' % K))], aux=[K], derives=der))
+        out.append(mk('arb_%s_expr_xor_less' % t, 'int', t, validators=[Validator('less', Bound('%s ^ 0x10' % K, '', '(%s ^ 0x10)' % K))], aux=[K], derives=der))
+        if t == 'u8':
+            out.append(mk('arb_u8_userconst_max', 'int', t, validators=[Validator('greater', Bound('MAX - 10', '', '(MAX - 10)'))], aux=['USER_MAX_U8'], derives=der))
+        if t == 'i16':
+            out.append(mk('arb_i16_userconst_min', 'int', t, validators=[Validator('less_or_equal', Bound('MIN + 50', '', '(MIN + 50)'))], aux=['USER_MIN_I16'], derives=der))
         # custom sanitizer with validation (accepted by the macro for integers)
         s3, n3 = aux.custom('san3', t)
         dd = mk('arb_%s_san3_le12' % t, 'int', t, sanitizers=[Sanitizer('with', s3)], validators=[Validator('less_or_equal', aux.lit_bound(12, t))], aux=[n3], derives=der)
@@ -1351,6 +1358,15 @@ def harnesses_for(prop, tier, seed):
             ed.append(mk('c12e_%s_fin' % t, 'float', t, validators=[Validator('finite')], derives=der))
             ed.append(mk('c12e_%s_ge_fin_lt' % t, 'float', t, validators=[Validator('greater_or_equal', bl), Validator('finite'), Validator('less', bu)], aux=[n1, n2], derives=der))
             ed.append(mk('c12e_%s_gt_le_fin' % t, 'float', t, validators=[Validator('greater', bl), Validator('less_or_equal', bu), Validator('finite')], aux=[n1, n2], derives=der))
+        for t in FLOAT_TYPES:
+            bl, n1 = aux.sym_bound('lo', t)
+            bu, n2 = aux.sym_bound('hi', t)
+            for tag, vals in (('ge_le', [Validator('greater_or_equal', bl), Validator('less_or_equal', bu)]), ('gt', [Validator('greater', bl)]), ('none', [])):
+                dn = mk('c12x_%s_%s_nofinite' % (t, tag), 'float', t, validators=vals, aux=[n1, n2], derives=['Debug', 'Clone', 'Copy', 'PartialEq', 'Eq', 'PartialOrd', 'Ord'] + (['TryFrom'] if vals else ['From']))
+                dn.expect_reject = True    # Eq/Ord without `finite` must be refused; should it be accepted, the order laws decide
+                dn.verus = False
+                hs.append(h_float_ord(dn, [prop]))
+                decls.append(dn)
         extra = serde_items_expanded() + parse_stub_items(sorted(FLOAT_TYPES))
         for d in ed:
             d.verus = False
